@@ -25,6 +25,12 @@ theorem Exp_nonneg (n : Nat) : exp (n : Int) = .ok (pow2 (n % 255)) := by
     rw [Int.tmod_eq_emod_of_nonneg (by omega)]; omega
   rw [h2, exp_eq_pow2 _ (by omega)]
 
+/-- `Exp` on negative arguments: Go's `%` truncates towards zero, so a negative exponent indexes the
+table out of range (run-time panic) unless it is a multiple of 255, where the answer is α^0 = 1 -/
+theorem Exp_panics_iff (n : Int) : (exp n).isPanic = true ↔ (n < 0 ∧ Int.tmod n 255 ≠ 0) := by
+  unfold exp
+  split <;> simp_all [Out.isPanic]
+
 /-- Log is the inverse of Exp on non-zero elements, in both directions. -/
 theorem log_exp_inverse (k : Nat) (hk : k < 255) : log (expT k) = .ok k := by
   unfold log; rw [if_neg (exp_ne_zero k (by omega)), log_exp k hk]
